@@ -26,7 +26,7 @@ class Inconclusive(Exception):
 MODEL_USES = [
     ("src/db/cached_database/block_history_cache.rs", "std::collections", {"BTreeMap"}),
     ("src/db/database/block_database.rs", "std::collections", {"BTreeMap"}),
-    ("src/db/cached_database/block_cached_database.rs", "std::collections", {"HashMap", "HashSet"}),
+    ("src/db/cached_database/block_cached_database.rs", "std::collections", {"HashMap", "HashSet", "BTreeMap"}),
     ("src/global/database.rs", "std::collections", {"HashMap"}),
     ("src/global/shared_data.rs", "std::sync", {"RwLock", "RwLockReadGuard", "RwLockWriteGuard"}),
 ]
